@@ -22,6 +22,7 @@ import (
 	"go.flow.arcalot.io/pluginsdk/schema"
 	"verif/engine/lib"
 	"verif/engine/mc"
+	"verif/harness/stepkit"
 	"verif/harness/ukit"
 )
 
@@ -89,6 +90,7 @@ func scenarios(tier string) []scen {
 }
 
 var scs map[string]scen
+var stepScs map[string]stepkit.Scen
 
 // inputs of a subject: two raw values (the second one a unit string where applicable) and a native value
 type inputs struct {
@@ -388,11 +390,30 @@ func main() {
 				levels := []mc.Bounds{{Preempt: 0, Delay: 0}, {Preempt: 1, Delay: 1}, {Preempt: 2, Delay: 2}}
 				out = append(out, mc.Scenario{Name: s.name(), Levels: levels, Races: true})
 			}
+			// step calls on one callable schema (the way the ATP server uses it)
+			stepScs = map[string]stepkit.Scen{}
+			for _, s := range stepkit.Scens(tier) {
+				name := "step calls/" + s.Name
+				stepScs[name] = s
+				levels := []mc.Bounds{{Preempt: 0, Delay: 0}, {Preempt: 1, Delay: 1}, {Preempt: 2, Delay: 2}, {Preempt: 3, Delay: 3}}
+				out = append(out, mc.Scenario{Name: name, Levels: levels, Races: true})
+			}
 			return out
 		},
-		Body:  func(sc mc.Scenario) func() { return body(scs[sc.Name]) },
-		Judge: func(sc mc.Scenario, r *mcrt.Result) (string, []mc.Finding) { return judge(scs[sc.Name], r) },
-		Pre:   pre,
+		Body: func(sc mc.Scenario) func() {
+			if s, ok := stepScs[sc.Name]; ok {
+				return stepkit.Body(s)
+			}
+			return body(scs[sc.Name])
+		},
+		Judge: func(sc mc.Scenario, r *mcrt.Result) (string, []mc.Finding) {
+			if s, ok := stepScs[sc.Name]; ok {
+				return stepkit.Judge(s, r)
+			}
+			return judge(scs[sc.Name], r)
+		},
+		Pre:  pre,
+		Rule: "stateless depth-first search over thread schedules of the real schema code under a cooperative scheduler (sync shim; access events on every lazily written field, package variable and map object): 11 subjects (units, defaults, struct-mapped sub-objects, references, one-ofs) x {freshly built, freshly rebuilt from the description} x every unordered pair of {Unserialize, Unserialize of a second value, Validate, Serialize, ValidateCompatibility with data, ValidateCompatibility with a schema, SelfSerialize} (thorough: plus triples), all schedules within the bound; plus step calls on one callable schema: CallStep / CallSignal for run ids r1, r2 from 2-4 threads (thorough 5), first use of a run id raced between step and signal; every execution: vector-clock race scan, result of every call equal to the call in isolation, initializer once per run id, signal handler sees its run's step data; package-level unit definitions: first use raced in a fresh process per trial",
 		Budget: func(tier string) time.Duration {
 			if tier == "thorough" {
 				return 20 * time.Minute
